@@ -1126,6 +1126,146 @@ func metaRich(d *dg.Design) *dg.Design {
 	return c
 }
 
+// ------------------------------------------------------------------ path computation streams
+
+// pathStreams runs the real codegen.SnakeCase and filepath.Join on generated inputs and
+// writes what they returned as Coq terms (cases_snake.txt, cases_join.txt) for the
+// comparison with GenFS.snake_case / GenFS.join_clean. The model is stated for ASCII input.
+func pathStreams(r *vh.RNG, designs []*dg.Design, out string, n int) (int, int) {
+	bytesTerm := func(s string) string { return vh.CoqBytes(s) }
+	var names []string
+	seen := map[string]bool{}
+	add := func(s string) {
+		if !seen[s] {
+			seen[s] = true
+			names = append(names, s)
+		}
+	}
+	for _, s := range []string{"", "News", "OldNews", "CNNNews", "OAuth", "OAuthToken", "myOAuth2Client", "OAuthOAuth", "OAut", "store_front", "fooBar", "foo-bar", " a  b ", "\ta\nb\r", "HTTPServer2Go", "X", "x", "_", "__a__B", "-", "--", "a-B-c", "A1B2", "123", "..", ".", "a/b", "A/B", "a.b", "Ab Cd", "ABC", "aBC", "ABc", "a_B", "A_b", "Z9z"} {
+		add(s)
+	}
+	for _, n := range hostileNames {
+		add(n)
+		add(codegen.Goify(n, true))
+	}
+	for _, d := range designs {
+		add(d.Name)
+		for _, s := range d.Services {
+			add(s.Name)
+			add(codegen.Goify(s.Name, true))
+		}
+		for _, t := range d.Types {
+			add(t.Name)
+		}
+	}
+	nameAlpha := "abcxyzABCXYZ019__-- OAuth"
+	anyAlpha := "aZ09_- ./\t~!(){}OAuth"
+	for i := 0; i < n; i++ {
+		alpha := nameAlpha
+		if i%4 == 3 {
+			alpha = anyAlpha
+		}
+		l := 1 + r.Intn(12)
+		var b strings.Builder
+		for j := 0; j < l; j++ {
+			if r.Chance(1, 12) {
+				b.WriteString("OAuth")
+			} else {
+				b.WriteByte(alpha[r.Intn(len(alpha))])
+			}
+		}
+		add(b.String())
+	}
+	var sl []string
+	for _, nm := range names {
+		ascii := true
+		for i := 0; i < len(nm); i++ {
+			if nm[i] >= 128 {
+				ascii = false
+			}
+		}
+		if !ascii {
+			continue
+		}
+		got := codegen.SnakeCase(nm)
+		sl = append(sl, fmt.Sprintf("(%d, %s, %s)", len(sl), bytesTerm(nm), bytesTerm(got)))
+		// the law itself, on the implementation: a name of letters, digits, '_', '-', blanks
+		// (not all blank) gives a non-empty directory name over [a-z0-9_]
+		isName, nonBlank := len(nm) > 0, false
+		for i := 0; i < len(nm); i++ {
+			c := nm[i]
+			switch {
+			case c >= 'a' && c <= 'z', c >= 'A' && c <= 'Z', c >= '0' && c <= '9', c == '_', c == '-':
+				nonBlank = true
+			case c == ' ' || (c >= 9 && c <= 13):
+			default:
+				isName = false
+			}
+		}
+		if isName && nonBlank {
+			ok := got != ""
+			for i := 0; i < len(got); i++ {
+				c := got[i]
+				if !(c >= 'a' && c <= 'z' || c >= '0' && c <= '9' || c == '_') {
+					ok = false
+				}
+			}
+			if !ok {
+				fail("service-directory-name-unsafe", fmt.Sprintf("codegen.SnakeCase(%q) = %q is not a non-empty word over [a-z0-9_]: the files of such a service would not land in a directory of their own below gen/", nm, got),
+					Input{Stream: "paths", Name: nm})
+			}
+		}
+	}
+	pool := []string{"gen", "", "..", ".", "a", "a/b", "x/", "b//c", "calc", "service.go", "a/../b", "./k", "...", "http", "a/./b/..", "zz/"}
+	var jl []string
+	addJoin := func(elems []string) {
+		first := ""
+		for _, e := range elems {
+			if e != "" {
+				first = e
+				break
+			}
+		}
+		if strings.HasPrefix(first, "/") {
+			return // the model is about relative paths
+		}
+		got := filepath.ToSlash(filepath.Join(elems...))
+		var comps []string
+		if got != "" && got != "." {
+			comps = strings.Split(got, "/")
+		}
+		et := make([]string, len(elems))
+		for i, e := range elems {
+			et[i] = bytesTerm(e)
+		}
+		ct := make([]string, len(comps))
+		for i, c := range comps {
+			ct[i] = bytesTerm(c)
+		}
+		jl = append(jl, fmt.Sprintf("(%d, [%s], [%s])", len(jl), strings.Join(et, "; "), strings.Join(ct, "; ")))
+	}
+	addJoin([]string{"gen", "calc", "service.go"})
+	addJoin([]string{"gen", "", "service.go"})
+	addJoin([]string{"gen", "..", "service.go"})
+	addJoin([]string{})
+	addJoin([]string{"", ""})
+	for i := 0; i < n; i++ {
+		l := 1 + r.Intn(5)
+		elems := make([]string, l)
+		for j := range elems {
+			elems[j] = vh.Pick(r, pool)
+		}
+		addJoin(elems)
+	}
+	if err := os.WriteFile(filepath.Join(out, "cases_snake.txt"), []byte(strings.Join(sl, "\n")+"\n"), 0o644); err != nil {
+		panic(err)
+	}
+	if err := os.WriteFile(filepath.Join(out, "cases_join.txt"), []byte(strings.Join(jl, "\n")+"\n"), 0o644); err != nil {
+		panic(err)
+	}
+	return len(sl), len(jl)
+}
+
 // ------------------------------------------------------------------ metadata probe
 
 // metaProbe: metadata at the API, service and method level (designgen descriptions only
@@ -1550,6 +1690,16 @@ func main() {
 		distinct.Add("metaprobe")
 	}
 
+	if *replay == "" {
+		nPath := 400
+		if *tier == "thorough" {
+			nPath = 6000
+		}
+		ns, nj := pathStreams(rng.Fork(), designs, *out, nPath)
+		res.Extra["model_cases_snake_case"] = ns
+		res.Extra["model_cases_join"] = nj
+		evaluations += ns + nj
+	}
 	res.Extra["printer_checked"] = printerChecked
 	res.Extra["printer_agree"] = printerAgree
 	res.Extra["cli_designs"] = len(cliIdx)
@@ -1562,7 +1712,7 @@ func main() {
 	if err := os.WriteFile(filepath.Join(*out, "cases_fs.txt"), []byte(strings.Join(cases, "\n")+"\n"), 0o644); err != nil {
 		panic(err)
 	}
-	finish(*out, evaluations, len(distinct), fmt.Sprintf("tier A: %d fixed feature designs (metadata with several struct:field:*/struct:tag:* keys per attribute, recursive result types with views and collections, the four security kinds, two services, file server, six errors of six different types on one status code plus four on another, Extend, defaults, validations; each generated 10 (quick) / 30 (thorough, search) more times, gen only) then designgen.Random designs (every 4th loaded with metadata), each evaluated through the real DSL and generated (gen + example) %d times in-process into fresh directories, repetition k under another ambient setting (time.Local UTC / +14h / -11h / +5h45, TZ, LANG, LC_*, unrelated variables); every fresh-process run of the tool likewise (TZ=UTC / Pacific/Kiritimati / Pacific/Pago_Pago / Asia/Kathmandu, locales, module nested at another depth); CLI: the first %d generated designs printed as design packages, histories %v (delete = some but not all example files; stray = a file in every directory below gen/ plus new directories named goa*, tmp, design, gen, cmd, .hidden), %d fresh-process runs per history on one output directory each, service/API names from a hostile-but-valid pool (goals, goa_admin, goa, gen, http, grpc, cli, cmd, tmp, design, example, x, fooBar, ...), API name == service name in the calc design; metadata probe: a design with API/service/method-level openapi:tag:*/extension/operationId metadata, two response cookies and file servers, both openapi:summary and swagger:summary with different values at API, service, method and file-server level, OpenAPI files rendered in memory 100 (600 thorough) times from fresh evaluations; evaluations = generator runs (tier A) + executed history steps (CLI) + probe renderings; distinct = distinct design descriptions per stream",
+	finish(*out, evaluations, len(distinct), fmt.Sprintf("tier A: %d fixed feature designs (metadata with several struct:field:*/struct:tag:* keys per attribute, recursive result types with views and collections, the four security kinds, two services, file server, six errors of six different types on one status code plus four on another, Extend, defaults, validations; each generated 10 (quick) / 30 (thorough, search) more times, gen only) then designgen.Random designs (every 4th loaded with metadata), each evaluated through the real DSL and generated (gen + example) %d times in-process into fresh directories, repetition k under another ambient setting (time.Local UTC / +14h / -11h / +5h45, TZ, LANG, LC_*, unrelated variables); every fresh-process run of the tool likewise (TZ=UTC / Pacific/Kiritimati / Pacific/Pago_Pago / Asia/Kathmandu, locales, module nested at another depth); CLI: the first %d generated designs printed as design packages, histories %v (delete = some but not all example files; stray = a file in every directory below gen/ plus new directories named goa*, tmp, design, gen, cmd, .hidden), %d fresh-process runs per history on one output directory each, service/API names from a hostile-but-valid pool (goals, goa_admin, goa, gen, http, grpc, cli, cmd, tmp, design, example, x, fooBar, ...), API name == service name in the calc design; metadata probe: a design with API/service/method-level openapi:tag:*/extension/operationId metadata, two response cookies and file servers, both openapi:summary and swagger:summary with different values at API, service, method and file-server level, OpenAPI files rendered in memory 100 (600 thorough) times from fresh evaluations; path streams: codegen.SnakeCase on names of the designs, a fixed corpus and random ASCII strings, filepath.Join on random element lists (400 / 6000 each); evaluations = generator runs (tier A) + executed history steps (CLI) + probe renderings + path cases; distinct = distinct design descriptions per stream",
 		len(fixedDesigns()), repsA, nCLI, hs, procs), nil)
 }
 
